@@ -175,7 +175,48 @@ def run(ck, a):
       if pname == 'spring' and 'rest' in sname:
         ck.samples.append({'scene': sname, 'pipeline': pname, 'xml': xml_})
 
+  # ---------------- (3) unit level: derivative of the generalized free-joint position update at ZERO angular velocity
+  # q' = q (x) exp(dt w / 2) is smooth in w; its derivative at w = 0 is  d q'/d w_i = dt/2 * q (x) (0, e_i).  The code reaches it through a guarded norm
+  # (safe_norm + 1e-8); the Jacobian jaxpr JAX produces for the real function is interpreted at w = 0 exactly (tiny ground angles get Taylor enclosures)
+  # and compared with the closed form to 1e-6 relative.  This is the one place where brax differentiates a smooth map through a norm guard.
+  from brax.generalized import integrator as gint
+  from spec import kin
+  sysf = mjcf.loads(models.to_xml(free_body()))
+  dtf = F(repr(float(sysf.opt.timestep)))
+  for qi, quat in enumerate([(1, 0, 0, 0), (F(3, 5), 0, F(4, 5), 0), (F(1, 2), F(1, 2), F(1, 2), F(1, 2))][:3 if thorough else 2]):
+    ctxu = core.Ctx(fold=False)
+    ctxu.tight_trig = True
+    fq = lambda q_, w_: gint._integrate_q_free(sysf, q_, jp.concatenate([jp.zeros(3), w_]))[3:7]
+    try:
+      (J,), cju = core.run(ctxu, lambda q_, w_: (jax.jacfwd(fq, argnums=1)(q_, w_),), core.obj_array([0, 0, 1] + list(quat)), core.obj_array([0, 0, 0]))
+    except (core.SXUnsupported, ZeroDivisionError, ValueError) as e_:
+      ck.harness_error('free-joint integrator Jacobian at zero spin: %r' % (e_,))
+      continue
+    ck.traced('jax.jacfwd(generalized.integrator._integrate_q_free) w.r.t. angular velocity', cju)
+    fru = Fr.for_ctx(ctxu)
+    sideu = [fru.formula(s_, _top=False) for s_ in ctxu.side]
+    tol = dtf / 10**6
+    goals = []
+    for i in range(3):
+      ref = kin.qmul(list(quat), [0] + [1 if c == i else 0 for c in range(3)])
+      for k in range(4):
+        refv = core.s_mul(dtf / 2, ref[k])
+        goals += [fru.formula(lift(J[k, i]) - lift(refv) <= tol), fru.formula(lift(J[k, i]) - lift(refv) >= -tol)]
+    ck.add(Ob('gradient-correct/free-joint position update at zero angular velocity: dq\'/dw == dt/2 q (x) (0, e_i)/quat%d' % qi, sideu, z3.And(goals), timeout=60,
+              meta={'fn': 'freeint', 'quat': [float(x_) for x_ in quat]}))
+    if qi == 0:
+      ck.add(Ob('twin/reach/free-joint Jacobian', sideu, None, expect='sat', timeout=30))
+      ck.add(Ob('twin/zero-derivative/free-joint Jacobian', sideu + [z3.Not(z3.And([fru.formula(lift(J[k, i]) == 0) for k in range(4) for i in range(3)]))], None, expect='sat', timeout=30))
+
   def rep(ob):
+    if ob.meta.get('fn') == 'freeint':
+      qf = jp.array([0., 0, 1] + ob.meta['quat'])
+      f64 = lambda w_: gint._integrate_q_free(sysf, qf, jp.concatenate([jp.zeros(3), w_]))[3:7]
+      Jn = np.asarray(jax.jacfwd(f64)(jp.zeros(3)))
+      h = 1e-5
+      fd = np.stack([(np.asarray(f64(jp.array(h * e_))) - np.asarray(f64(jp.array(-h * e_)))) / (2 * h) for e_ in np.eye(3)], axis=1)
+      bad = bool(np.abs(Jn - fd).max() > 1e-3 * float(sysf.opt.timestep))
+      return bad, {'quat': ob.meta['quat'], 'jacobian_at_zero_spin': Jn.tolist(), 'central_difference': fd.tolist()}
     if ob.meta.get('fn') in ('safe_arccos', 'safe_arcsin'):
       fn = getattr(bmath, ob.meta['fn'])
       std = jp.arccos if 'cos' in ob.meta['fn'] else jp.arcsin
@@ -221,6 +262,7 @@ def run(ck, a):
         return True, {'xml': xml_, 'pipeline': pname, 'q': q0, 'qd': qd.tolist(), 'grad_q': np.asarray(g[0]).tolist(), 'grad_qd': np.asarray(g[1]).tolist()}
     return False, {'why': 'gradient finite at the solver point and at the singular point'}
   ck.replayers['custom-jvp'] = rep
+  ck.replayers['gradient-correct'] = rep
   ck.replayers['finite-gradient'] = rep
   ck.discharge()
   ck.cross_check(n=1, timeout=10)
